@@ -363,6 +363,31 @@ impl AST {
                                 return;
                             }
                         };
+                        // Every placeholder needs exactly one argument.
+                        let placeholders = parts
+                            .iter()
+                            .filter(|p| matches!(p, TemplatePart::PlaceHolder(_)))
+                            .count();
+                        if placeholders != elems.len() {
+                            ops.push(
+                                Op::Val(Primitive::Str(
+                                    format!(
+                                        "Format string has {} placeholders but {} arguments were given",
+                                        placeholders,
+                                        elems.len()
+                                    )
+                                    .into(),
+                                )),
+                                def.pos.clone(),
+                            );
+                            ops.push(Op::Bang, def.pos);
+                            return;
+                        }
+                        if parts.is_empty() {
+                            // An empty template renders as the empty string.
+                            ops.push(Op::Val(Primitive::Str("".into())), def.pos);
+                            return;
+                        }
                         // We need to push process these in reverse order for the
                         // vm to process things correctly;
                         elems.reverse();
@@ -416,14 +441,18 @@ impl AST {
                         ops.push(Op::BindOver, expr_pos.clone());
                         let mut elems = Vec::new();
                         let mut elems_iter = elems.drain(0..);
-                        Self::translate_template_part(
-                            def.pos.clone(),
-                            parts_iter.next().unwrap(),
-                            &mut elems_iter,
-                            ops,
-                            false,
-                            root,
-                        );
+                        match parts_iter.next() {
+                            Some(first) => Self::translate_template_part(
+                                def.pos.clone(),
+                                first,
+                                &mut elems_iter,
+                                ops,
+                                false,
+                                root,
+                            ),
+                            // An empty template renders as the empty string.
+                            None => ops.push(Op::Val(Primitive::Str("".into())), def.pos.clone()),
+                        }
                         for p in parts_iter {
                             Self::translate_template_part(
                                 def.pos.clone(),
